@@ -53,7 +53,7 @@ func forwardsTo(env *brokerx.Env, peer mesh.PeerName, ssid message.Ssid) bool {
 
 func concScenarios() map[string]*sched.Scenario {
 	return map[string]*sched.Scenario{"first-contact": {
-		Name: "first-contact", Files: []string{"internal/service/cluster/memberlist.go"},
+		Name: "first-contact", Files: []string{"internal/service/cluster/memberlist.go"}, YieldsOnly: true,
 		Body: func(s *sched.Sched) {
 			env := concBroker()
 			sw := env.Svc.VerifCluster()
